@@ -558,6 +558,20 @@ pub fn cases_for(prop: &str, tier: &str, seed: u64, shard: (usize, usize)) -> (V
                 let doc = cyclic_doc(k, edges as u64, rng.below(3), rng.below(3), rng.below(3), rng.below(8) as u32).print();
                 cases.push(Case { id: format!("cg{}x{}", shard.0, i), family: "fragment-graph".into(), schema: minimal, op: "collect".into(), doc: Some(doc), extra: vec![], note: String::new() });
             }
+            {
+                let synth = pool.iter().position(|s| s.name == "synthetic").unwrap();
+                for (i, d) in crate::families::collect_name_collision_cases(&mut rng, budget(tier, 300, 3375)).into_iter().enumerate() {
+                    if i % shard.1 == shard.0 {
+                        cases.push(Case { id: format!("cn{}x{}", shard.0, i), family: "name-collisions".into(), schema: synth, op: "collect".into(), doc: Some(d.print()), extra: vec![], note: String::new() });
+                    }
+                }
+                for i in 0..(n / 4) {
+                    let k = rng.range(2, 3);
+                    let base = cyclic_doc(k, rng.next() & 0x1FF, rng.below(3), rng.below(3), rng.below(3), rng.below(8) as u32);
+                    let doc = crate::families::collide_names(&base, &mut rng, &["T", "Query", "a", "t"], i % 2 == 0).print();
+                    cases.push(Case { id: format!("cc{}x{}", shard.0, i), family: "fragment-graph-name-collisions".into(), schema: minimal, op: "collect".into(), doc: Some(doc), extra: vec![], note: String::new() });
+                }
+            }
             if shard.0 == 0 {
                 for (id, sname, doc) in [
                     ("alias", "pets", "subscription { x: onNewPet { name } y: onNewPet { name } onNewPet { n: name name } ...F ... on Subscription { z: onNewPet { name } } ... on Query { q: human { name } } } fragment F on Subscription { x: onNewPet { nickname: name } ...F ...G } fragment G on Query { human { name } }"),
@@ -1032,6 +1046,9 @@ pub fn exhaustive_family(prop: &str, tier: &str, rng: &mut Rng, shard: (usize, u
             for d in merge_fragment_dag_cases(rng, budget(tier, 3000, 60000)) {
                 docs.push(("merge-fragment-dags".to_string(), d.print()));
             }
+            for d in merge_exclusive_fragment_cases() {
+                docs.push(("merge-exclusive-fragments".to_string(), d.print()));
+            }
         }
         "C10" => {
             for d in directive_mix_cases(rng, budget(tier, 2500, 50000)) {
@@ -1078,6 +1095,14 @@ pub fn exhaustive_family(prop: &str, tier: &str, rng: &mut Rng, shard: (usize, u
             let k = 5 + (j % 2);
             let doc = graphk_doc(rng, k).print();
             out.push(Case { id: format!("g{}{}x{}", k, shard.0, j), family: format!("fragment-graph-{}", k), schema: minimal, op: "validate".into(), doc: Some(doc), extra: vec![], note: String::new() });
+        }
+        // the same graphs with names shared across name spaces: fragments called like types, fields
+        // and operations; the operation called like a fragment
+        for j in 0..budget(tier, 1600, 30000) / shard.1 {
+            let k = 2 + (j % 3);
+            let base = if j % 2 == 0 { graphk_doc(rng, k) } else { cyclic_doc(k, rng.next() & ((1u64 << (k * k)) - 1), rng.below(3), rng.below(3), rng.below(3), rng.below(8) as u32) };
+            let doc = crate::families::collide_names(&base, rng, &["T", "Query", "a", "t", "String", "Q"], true).print();
+            out.push(Case { id: format!("gc{}x{}", shard.0, j), family: "fragment-graph-name-collisions".into(), schema: minimal, op: "validate".into(), doc: Some(doc), extra: vec![], note: String::new() });
         }
     }
     if prop == "C11" {
